@@ -107,7 +107,7 @@ KeyChangedInBlock == \E p \in DOMAIN st.cands : \E q \in DOMAIN disk.cands : dis
 UpdatesOf(s0, s1) == <<>>      \* powers are 64-bit products in the node: left to the trace checks (C17_Power)
 End ==
    /\ phase = "begun"
-   /\ st' = EndS(st, st.h, hist.present, WorldCfg, 1, Cap, KeyChangedInBlock)
+   /\ st' = EndS(st, st.h, hist.present, WorldCfg, 1, Cap, KeyChangedInBlock, <<>>)
    /\ ev' = Ev("EndBlock", st.h) @@ [end |-> [updates |-> UpdatesOf(st, st')]]
    /\ phase' = "ended"
    /\ scn' = Append(scn, [op |-> "end"])
